@@ -263,6 +263,17 @@ def _point(draw, role, cal, icp_c, step, m, xyd, allow_min=True):
             j = draw(st.integers(-3, 5))
         else:
             j = draw(st.integers(0, m + 2))
+        if role == 'E' and step[2] in ('Mo', 'Y') and draw(st.booleans()):
+            # an end on day 29-31, a whole number of steps after the initial
+            # month: counting months back from it and forward again does not
+            # give the same days
+            months = j * step[3] * (12 if step[2] == 'Y' else 1)
+            y, mo = icp_c[0], icp_c[1] - 1 + months
+            y, mo = y + mo // 12, mo % 12 + 1
+            d = min(draw(st.sampled_from([29, 30, 31])), _dim(cal, y, mo))
+            c = [y, mo, d, icp_c[3], icp_c[4]]
+            return _spell(c, draw(st.sampled_from(ZONE_SPELL)), draw(
+                st.sampled_from(['basic', 'ext', 'hour', 'date'])), xyd), 'abs'
         slack = draw(st.sampled_from([0, 0, 0, 1, nominal // 2]))
         return draw(_abs_point(cal, icp_c, nominal * j + slack, xyd)), 'abs'
     if kind == 'trunc':
